@@ -2,6 +2,7 @@
 // with an instance (a text the pattern is meant to match), so that matches and near
 // misses are both frequent.  Safe regex groups only (std::regex is the provider).
 #pragma once
+#include <cstring>
 #include <optional>
 #include <string>
 #include "bytesrc.h"
@@ -16,6 +17,14 @@ struct Comp {
 
 inline std::string word(ByteSource& b) {
   static const char* w[] = {"a", "b", "foo", "bar", "x", "api", "v1", "item", "abc", "x-y", "a1", "0", "42", "index", "q", "z"};
+  return b.pick(w);
+}
+// words for pathname / search / hash literals: sometimes with punctuation that is not pattern
+// syntax, in pairs that differ only in bit 0x20 or by one step ('@' '`', '[' '{', '^' '~',
+// '|' '\\') - what a hand-written case-insensitive or block-wise comparison can confuse
+inline std::string pword(ByteSource& b) {
+  if (!b.chance(70)) return word(b);
+  static const char* w[] = {"@", "`", "~", "^", "|", "[", "]", "a@b", "a`b", "x~y", "x^y", "p|q", "k[0]", "_", "a_b", "!", "a!b", "'", ";", "a;b", ",", "$", "&x", "=", "~~", "@@"};
   return b.pick(w);
 }
 inline std::string name(ByteSource& b) {
@@ -114,7 +123,7 @@ inline Comp pathname(ByteSource& b) {
     std::string p, t;
     static const unsigned w[] = {55, 12, 10, 8, 8, 7};
     switch (b.weighted(w)) {
-      case 0: { p = "/" + word(b); t = p; break; }
+      case 0: { p = "/" + pword(b); t = p; break; }
       case 1: p = "/*"; t = "/" + word(b) + (b.coin() ? "/" + word(b) : ""); all_literal = false; break;
       case 2: p = "/:" + name(b); t = "/" + word(b); all_literal = false; break;
       case 3: p = "/:" + name(b) + "(\\d+)"; t = "/" + std::to_string(b.below(1000)); all_literal = false; break;
@@ -134,7 +143,7 @@ inline Comp free_text(ByteSource& b) {  // search / hash / username / password
   static const unsigned w[] = {30, 25, 15, 12, 10, 8};
   switch (b.weighted(w)) {
     case 0: c.pattern = ""; c.instance = ""; c.literal = true; break;
-    case 1: { std::string t = word(b) + "=" + word(b); c.pattern = t; c.instance = t; c.literal = true; break; }
+    case 1: { std::string t = word(b) + "=" + pword(b); c.pattern = t; c.instance = t; c.literal = true; break; }
     case 2: c.pattern = "*"; c.instance = b.coin() ? "" : word(b); break;
     case 3: c.pattern = word(b) + "=:" + name(b); c.instance = c.pattern.substr(0, c.pattern.find(':')) + word(b); break;
     case 4: c.pattern = "(.*)"; c.instance = word(b); break;
@@ -145,8 +154,18 @@ inline Comp free_text(ByteSource& b) {  // search / hash / username / password
 
 // perturb an instance into a near miss (or keep it)
 inline std::string perturb(ByteSource& b, const std::string& s) {
-  static const unsigned w[] = {60, 8, 8, 8, 8, 8};
+  static const unsigned w[] = {60, 8, 8, 8, 8, 8, 14};
   switch (b.weighted(w)) {
+    case 6: {  // one byte replaced by an ASCII neighbour: other case / bit 0x20 flipped, or one step away
+      if (s.empty()) return "x";
+      std::string t = s;
+      size_t i = b.below((uint32_t)t.size());
+      unsigned char ch = (unsigned char)t[i];
+      unsigned char nb = b.coin() ? (unsigned char)(ch ^ 0x20) : (b.coin() ? (unsigned char)(ch + 1) : (unsigned char)(ch - 1));
+      if (nb < 0x21 || nb > 0x7e || ch >= 0x80 || strchr("/?#%:@\\", (int)nb) || strchr("/?#%:", (int)ch)) return s + "x";  // stay printable, do not create structure
+      t[i] = (char)nb;
+      return t;
+    }
     case 0: return s;
     case 1: return s + "x";                      // extra suffix (catches prefix-only comparison)
     case 2: return s.empty() ? "x" : s.substr(0, s.size() - 1);
